@@ -168,11 +168,19 @@ class Visitor(_BaseVisitor[T], abc.ABC):
     for v in self.extensions.before_visit + self.extensions.inner_visit:
       v.depart(ob)
     
+    pruning = None
     if not extensions_only:
-      super().depart(ob)
+      try:
+        super().depart(ob)
+      except self._TreePruningException as ex:
+        # The remaining extensions still leave the node, like in visit().
+        pruning = ex
 
     for v in self.extensions.after_visit + self.extensions.outter_visit:
       v.depart(ob)
+    
+    if pruning:
+      raise pruning
 
   def walkabout(self, ob: T) -> None:
     """
